@@ -536,8 +536,11 @@ class Fn:
                 nm = e.get('n', str(e['i']))
                 if '{closure' in e.get('adt', ''):
                     nm = str(e['i'])  # closure captures are addressed by position (matches the closure aggregate's operands)
+                red = self._reduce_some_payload(cur, depth) if (e['i'] == 0 and cur[0] == 'as' and cur[2] == 'Some') else None
                 # field of a known aggregate -> the operand
-                if cur[0] == 'agg' and e['i'] < len(cur[2]) and cur[1] in ('tuple',) :
+                if red is not None:
+                    cur = red
+                elif cur[0] == 'agg' and e['i'] < len(cur[2]) and cur[1] in ('tuple',) :
                     cur = cur[2][e['i']]
                 elif cur[0] == 'agg' and str(cur[1]).startswith('closure:') and e['i'] < len(cur[2]) and '{closure' in e.get('adt', ''):
                     cur = cur[2][e['i']]   # capture of a known closure value (inlined closure body)
@@ -556,6 +559,60 @@ class Fn:
             else:
                 cur = (k, cur)
         return cur
+
+    def _reduce_some_payload(self, cur, depth):
+        """payload of `(X as Some)` where X is a data-level construction whose payload is known:
+        c.then(|| e) -> e ; c.then_some(v) -> v ; x.map(|a| e) -> e[a := (x as Some).0] ; Some(v) -> v"""
+        src = cur[1]
+        while src[0] in ('ref', 'deref'):
+            src = src[1]
+        if src[0] == 'agg' and str(src[1]).endswith('Option::Some') and src[2]:
+            return src[2][0]
+        if src[0] != 'call' or not src[2]:
+            return None
+        name = src[1]
+        if name.endswith('bool::then_some') and len(src[2]) == 2:
+            return src[2][1]
+        if name.endswith('bool::then') and len(src[2]) == 2:
+            return self._beta(src[2][1], [], depth)
+        if name == 'std::option::Option::map' and len(src[2]) == 2:
+            return self._beta(src[2][1], [('field', ('as', src[2][0], 'Some'), '0', 'std::option::Option')], depth)
+        return None
+
+    def _beta(self, clo, args, depth):
+        """value of calling the closure aggregate `clo` with `args` (trees in this frame): its single return tree with captures and
+        parameters substituted; None if unknown"""
+        while clo[0] in ('ref', 'deref'):
+            clo = clo[1]
+        prog = getattr(self, 'program', None)
+        if prog is None or clo[0] != 'agg' or not str(clo[1]).startswith('closure:') or depth < 10:
+            return None
+        g = prog.fns.get(clo[1][len('closure:'):])
+        if g is None or g is self:
+            return None
+        rbs = g.return_blocks()
+        if len(rbs) != 1:
+            return None
+        body = g.expr_local(0, rbs[0], 'T')
+        if any(x[0] in ('phi', 'local', 'var') for x in walk(body)):
+            return None
+        caps = clo[2]
+
+        def sub(t):
+            if not isinstance(t, tuple) or not t:
+                return t
+            if t[0] == 'field' and str(t[2]).isdigit() and '{closure' in str(t[3] if len(t) > 3 else ''):
+                base = t[1]
+                while base[0] in ('deref', 'ref'):
+                    base = base[1]
+                if base[0] == 'arg' and base[1] == 1 and int(t[2]) < len(caps):
+                    return caps[int(t[2])]
+            if t[0] == 'arg' and t[1] >= 2:
+                if t[1] - 2 < len(args):
+                    return args[t[1] - 2]
+                return ('unknown', 'closure-arg')
+            return tuple(sub(x) if isinstance(x, tuple) else x for x in t)
+        return sub(body)
 
     def expr_local(self, l, b, i, depth=80):
         key = ('el', l, b, i)
@@ -763,31 +820,67 @@ class Fn:
             return None
 
         def step_store(b, store):
+            """constant propagation along the path: integer/bool constants of plain locals, and the variant of a local that was
+            assigned an enum aggregate (so that a later `discriminant(local)` test is decided instead of forked)"""
             st2 = None
             for s in self.stmts(b):
                 if s['k'] == 'assign' and not s['p']['pr']:
                     l = s['p']['l']
                     r = s['r']
                     val = None
+                    var = None
+                    cur = st2 if st2 is not None else store
                     if r['k'] == 'use':
-                        val = const_of(r['o'], st2 if st2 is not None else store)
+                        val = const_of(r['o'], cur)
+                        o = r['o']
+                        if o['k'] in ('copy', 'move') and not o['p']['pr']:
+                            var = cur.get(('v', o['p']['l']))
                     elif r['k'] == 'unop' and r['op'] == 'Not':
-                        v = const_of(r['a'], st2 if st2 is not None else store)
+                        v = const_of(r['a'], cur)
                         if v is not None and self.local_ty(l) == 'bool':
                             val = 0 if v else 1
+                    elif r['k'] == 'agg' and r.get('ak') == 'adt' and r.get('variant'):
+                        var = r['variant']
+                    elif r['k'] == 'discr' and not r['p']['pr']:
+                        known = cur.get(('v', r['p']['l']))
+                        if known is not None:
+                            for dv, nm in r.get('variants', []):
+                                if nm == known:
+                                    val = dv
                     if st2 is None:
                         st2 = dict(store)
                     if val is None:
                         st2.pop(l, None)
                     else:
                         st2[l] = val
-                elif s['k'] == 'assign' and s['p']['pr']:
-                    pass
+                    if var is None:
+                        st2.pop(('v', l), None)
+                    else:
+                        st2[('v', l)] = var
+                elif s['k'] in ('assign', 'setdiscr') and s['p']['pr'] or s['k'] == 'setdiscr':
+                    if ('v', s['p']['l']) in (st2 if st2 is not None else store):
+                        if st2 is None:
+                            st2 = dict(store)
+                        st2.pop(('v', s['p']['l']), None)
+                if s['k'] == 'assign' and s['r']['k'] in ('ref', 'rawptr') and s['r'].get('mut') and not s['r']['p']['pr']:
+                    # a mutable borrow of the whole local may change its variant later
+                    if ('v', s['r']['p']['l']) in (st2 if st2 is not None else store):
+                        if st2 is None:
+                            st2 = dict(store)
+                        st2.pop(('v', s['r']['p']['l']), None)
             t = self.term(b)
             if t['k'] == 'call' and not t['dest']['pr']:
                 if st2 is None:
                     st2 = dict(store)
                 st2.pop(t['dest']['l'], None)
+                st2.pop(('v', t['dest']['l']), None)
+                # `x?` on the failure branch: from_residual always builds the failure variant
+                rn = strip_generics(t.get('res') or '')
+                if rn.endswith('std::ops::FromResidual>::from_residual'):
+                    if 'option::Option' in rn:
+                        st2[('v', t['dest']['l'])] = 'None'
+                    elif 'result::Result' in rn:
+                        st2[('v', t['dest']['l'])] = 'Err'
             return st2 if st2 is not None else store
 
         stack = [(start, (start,), (), {}, frozenset())]
@@ -989,6 +1082,9 @@ def tree_fields(t):
     return [x for x in walk(t) if x[0] == 'field']
 
 
+_OP_CALL = re.compile(r'^<(u8|u16|u32|u64|u128|usize|i8|i16|i32|i64|i128|isize|f32|f64) as std::ops::(Add|Sub|Mul|Div|Rem|BitAnd|BitOr|BitXor|Shl|Shr)>::[a-z]+$')
+
+
 def canon(t):
     """canonical form for structural equality: drop block ids of calls, arg indices -> names, refs"""
     k = t[0]
@@ -999,6 +1095,10 @@ def canon(t):
     if k == 'call':
         if len(t[2]) == 2 and t[1].endswith(('::index', '::index_mut')) and 'std::ops::Index' in t[1]:
             return ('index', canon(t[2][0]), canon(t[2][1]))
+        # operator traits on primitive integers/floats: `a.rem(b)` is `a % b`
+        m = _OP_CALL.match(t[1])
+        if m and len(t[2]) == 2:
+            return ('bin', m.group(2), canon(t[2][0]), canon(t[2][1]))
         return ('call', t[1], tuple(canon(x) for x in t[2]))
     if k == 'arg':
         return ('arg', t[2])
@@ -1025,6 +1125,8 @@ def canon(t):
     return t
 
 
+_ORD_IS = {'Less': 'lt', 'Equal': 'eq', 'Greater': 'gt'}
+_ORD_ISNOT = {'Less': 'ge', 'Equal': 'ne', 'Greater': 'le'}
 INT_TYS = {'u8', 'u16', 'u32', 'u64', 'u128', 'usize', 'i8', 'i16', 'i32', 'i64', 'i128', 'isize', 'char'}
 
 
@@ -1053,11 +1155,22 @@ def atom_of(cond, val, ty=None):
     if c[0] == 'discr':
         names = dict(c[3])
         if val[0] == 'eq':
-            return ('is', canon(c[1]), names.get(val[1], str(val[1])))
-        rest = [n for d, n in c[3] if d not in val[1]]
-        if len(rest) == 1:
-            return ('is', canon(c[1]), rest[0])
-        return ('isnot', canon(c[1]), tuple(names.get(x, str(x)) for x in val[1]))
+            a = ('is', canon(c[1]), names.get(val[1], str(val[1])))
+        else:
+            rest = [n for d, n in c[3] if d not in val[1]]
+            if len(rest) == 1:
+                a = ('is', canon(c[1]), rest[0])
+            else:
+                a = ('isnot', canon(c[1]), tuple(names.get(x, str(x)) for x in val[1]))
+        # a three-way comparison: `match a.cmp(&b) { Less => .., Equal => .., Greater => .. }`
+        subj = a[1]
+        if subj[0] == 'call' and len(subj[2]) == 2 and subj[1].endswith('std::cmp::Ord>::cmp'):
+            l, r = subj[2][0], subj[2][1]
+            if a[0] == 'is' and a[2] in _ORD_IS:
+                return ('cmp', _ORD_IS[a[2]], l, r)
+            if a[0] == 'isnot' and len(a[2]) == 1 and a[2][0] in _ORD_ISNOT:
+                return ('cmp', _ORD_ISNOT[a[2][0]], l, r)
+        return a
     if ty in INT_TYS and c is cond:
         # `match n { 0 => .., k => .. }` on an integer: an equality test against the listed value
         if val[0] == 'eq':
@@ -1126,10 +1239,29 @@ class Program:
         bp = os.path.join(os.path.dirname(os.path.dirname(os.path.abspath(__file__))), 'baseline_fns.json')
         if os.path.exists(bp):
             base = json.load(open(bp))
+            self.baseline_callers = base.get('callers', {}) if isinstance(base, dict) and 'fns' in base else {}
+            if isinstance(base, dict) and 'fns' in base:
+                base = base['fns']
             if isinstance(base, list):
                 base = {k: None for k in base}
+            self.baseline = base
             self.renamed = apply_renames(self, base)
             self.inlined = inline_new_helpers(self, set(base))
+
+    def scope_of(self, key, depth=2):
+        """the bodies that contain the code of pinned function `key` today: the function itself, or — when a small private helper was
+        inlined into its callers and deleted — the current versions of the functions that called it on the pinned tree"""
+        f = self.fns.get(key)
+        if f is not None:
+            return [f]
+        if depth <= 0:
+            return []
+        out = []
+        for c in getattr(self, 'baseline_callers', {}).get(key, []):
+            for g in self.scope_of(c, depth - 1):
+                if g not in out:
+                    out.append(g)
+        return out
 
     def fn(self, key):
         f = self.fns.get(key)
